@@ -19,6 +19,13 @@ Definition C (m : method) (d : option (option string * bool)) : confirmation :=
   {| c_method := m; c_data := match d with Some (r, cf) => Some {| d_recipient := r; d_confirmed := cf |} | None => None end |}.
 Definition M me specs binding conds dest conv confs (obs : bool) : ev :=
   (OParse {| m_me := me; m_specs := specs; m_binding := binding; m_conds := conds; m_dest := dest; m_conv := conv; m_confs := confs |}, RId obs).
+(* a Response with a LIST of assertions (document order), each built with As: how it travels (Plain / Encrypted /
+   Advised = inside the <Advice> of the top-level assertion before it), its Conditions (None / Some (K ..)), its
+   SubjectConfirmation elements; obs = per assertion: identity drawn from it *)
+Definition As (how : travel) conds confs : assertion := {| a_how := how; a_conds := conds; a_confs := confs |}.
+Definition R me specs binding dest conv assertions (obs : list bool) : ev :=
+  (OResp {| r_me := me; r_specs := specs; r_binding := binding; r_dest := dest; r_conv := conv; r_assertions := assertions |},
+   RFrom obs).
 Definition U specs binding (obs : option (list string)) : ev := (OUrls specs binding, RUrls obs).
 Definition E specs binding (obs : list string) : ev := (OEndp specs binding, REndp obs).
 Definition A specs binding (obs : option string) : ev := (OAcs specs binding, RAcs obs).
@@ -29,6 +36,7 @@ Definition mk me specs binding rs dest conv recip (obs : bool) : case :=
 Definition out_eqb (a b : out) : bool :=
   match a, b with
   | RId x, RId y => Bool.eqb x y
+  | RFrom x, RFrom y => list_eqb Bool.eqb x y
   | RUrls x, RUrls y => opt_eqb (list_eqb String.eqb) x y
   | REndp x, REndp y => list_eqb String.eqb x y
   | RAcs x, RAcs y => opt_eqb String.eqb x y
@@ -46,7 +54,15 @@ Definition cls1 (e : ev) : bool :=
   | (OParse x, RId b) => spec_m_b x b || (b && accept_v0 x && negb (accept x))
   | (o, r) => spec_ev_b o r
   end.
-Definition cls (c : case) : nat := if forallb cls1 c then 1 else 0.
+(* finding class 2 (C04-F2, fixed by 913771bd; kept so that a regression is recognised): identity drawn from an
+   assertion inside an <Advice> whose restrictions are not satisfied (or while the Destination is not mine) - every
+   assertion on which the property fails is an advised one *)
+Definition cls2 (e : ev) : bool :=
+  match e with
+  | (OResp x, RFrom l) => all2 (fun a d => negb (is_top a) || spec_m_b (obligations x a) d) (r_assertions x) l
+  | (o, r) => spec_ev_b o r
+  end.
+Definition cls (c : case) : nat := if forallb cls1 c then 1 else if forallb cls2 c then 2 else 0.
 
 Definition run := run_cases agrees holds cls.
 (* per call: (model agrees, spec holds on the observed result) *)
